@@ -6,6 +6,7 @@ Units
   O3  _read_batch_with_log_check: on_log events in stream order, all before the data batch is returned
   O4  one message through add_to_metadata -> identity wire -> _dispatch_log_or_error: delivered == emitted
   O5  robustness of _dispatch_log_or_error for ANY metadata a peer can put on a zero-row batch
+  O6  unary dispatch sites (socket + HTTP): sink flushed before the method runs, result written after it
 """
 
 from __future__ import annotations
@@ -26,7 +27,7 @@ from vgi_rpc.metadata import ERROR_KIND_KEY, LOG_EXTRA_KEY, LOG_LEVEL_KEY, LOG_M
 from vgi_rpc.rpc._common import RpcError, _current_request_id
 
 MANIFEST = {
-    "level_text": "Deductive proof over the real code, for every sequence of emissions and every metadata map: (O1) the client-log sink keeps written ++ buffer equal to the emitted sequence through __call__/flush_contents/reset, for any buffer length; (O2) OutputCollector and the inline flush keep log batches and the data batch in emission order; (O3) _read_batch_with_log_check hands the log batches of any stream to on_log in stream order, each once, before it returns the data batch, and reads nothing past it; (O4) a message (any non-exception level, any text, any string extra map of any size and any keys) travels add_to_metadata -> wire -> _dispatch_log_or_error and arrives with level, text and extras equal; (O5) for ANY bytes a peer puts under the log keys of a zero-row batch - non-UTF-8, unknown level, extra that is not JSON / not an object / an object with any keys (unbounded) - the client raises only RpcError (EXCEPTION level) or what on_log raised, consumes the batch, and calls on_log at most once.",
+    "level_text": "Deductive proof over the real code, for every sequence of emissions and every metadata map: (O1) the client-log sink keeps written ++ buffer equal to the emitted sequence through __call__/flush_contents/reset, for any buffer length; (O2) OutputCollector and the inline flush keep log batches and the data batch in emission order; (O3) _read_batch_with_log_check hands the log batches of any stream to on_log in stream order, each once, before it returns the data batch, and reads nothing past it; (O4) a message (any non-exception level, any text, any string extra map of any size and any keys) travels add_to_metadata -> wire -> _dispatch_log_or_error and arrives with level, text and extras equal; (O5) for ANY bytes a peer puts under the log keys of a zero-row batch - non-UTF-8, unknown level, extra that is not JSON / not an object / an object with any keys (unbounded) - the client raises only RpcError (EXCEPTION level) or what on_log raised, consumes the batch, and calls on_log at most once; (O6) _serve_unary and _run_unary_sync flush the sink into the response writer before the method runs and write the result after it returned, so whatever the method logs precedes its result.",
     "level_note": "Assumes: json.loads returns some JSON value or raises ValueError (JSONDecodeError, int-digit limit) / RecursionError, and inverts json.dumps on string-valued objects; str() of a decoded JSON value does not raise; UTF-8 encode/decode abstracted (inverse pair + validity predicate); pyarrow KeyValueMetadata is a bytes->bytes map and IPC writers/readers keep batch order (identity wire); the shm / external arms of _flush_collector and resolve_external_location / resolve_shm_batch are used by contract (pass-through), their own order-preservation is not reduced; loop termination not verified; engine + z3/cvc5 trusted.",
     "technique": "contract-based deductive verification: ghost emitted/written sequences with loop invariants, exceptional postconditions over all raise sites, composition lemma through an identity wire; VCs from the real AST (pyvc), z3/cvc5",
     "design_ref": "DESIGN.md §5 C08",
@@ -46,6 +47,7 @@ ASSUMPTIONS = [
     "'ignores the message' is read as: the batch is consumed (not returned as data) without an on_log call",
     "O3 uses _dispatch_log_or_error by contract (O4/O5): a log batch is delivered once or ignored, decided by the batch alone",
     "_flush_collector: only the inline arm (no shm, no external storage) is under contract",
+    "not under contract: the other loops that hand batches to _dispatch_log_or_error (_read_header_batch, the HTTP client's response readers in http/_client.py, external.py) and the stream dispatch sites' use of the sink (_write_stream_header flush/reset protocol)",
     "termination of the loops is not verified",
 ]
 
@@ -1153,3 +1155,73 @@ def read_with_log_check(S):
     S.oblige("O3.reads_nothing_past_the_data_batch", p1 == d + 1)
     S.oblige("O3.all_logs_before_it_delivered_in_stream_order_exactly_once", delivered_ok(D1, d))
     S.canary("O3.canary.nothing_delivered", SInt(D1.length) == d0)
+
+
+# ------------------------------------------------------------------------------------------
+# C08.O6  dispatch sites: the sink is flushed to the response writer before the method runs, the result is
+#          written after it returned - so every message the method emits precedes the result on the wire
+# ------------------------------------------------------------------------------------------
+
+
+def _order_ok(names, first, then, last):
+    if then not in names:
+        return True
+    i = names.index(then)
+    before = first in names and names.index(first) < i
+    after = all(j > i for j, n in enumerate(names) if n in last)
+    return before and after
+
+
+def replay_unary_order(inputs, ob):
+    """Real server over an in-memory pipe: logs emitted by a unary method arrive before its result."""
+    import threading
+    from typing import Protocol
+
+    from vgi_rpc.rpc import CallContext, RpcServer
+    from vgi_rpc.rpc._client import RpcConnection
+    from vgi_rpc.rpc._transport import make_pipe_pair
+
+    class P(Protocol):
+        def u(self) -> int: ...
+
+    class Impl:
+        def u(self, ctx: CallContext) -> int:
+            for i in range(3):
+                ctx.emit_client_log(Message.info(f"log{i}"))
+            return 7
+
+    client_t, server_t = make_pipe_pair()
+    th = threading.Thread(target=RpcServer(P, Impl()).serve, args=(server_t,), daemon=True)
+    th.start()
+    seen = []
+    try:
+        with RpcConnection(P, client_t, on_log=lambda m: seen.append(m.message)) as c:
+            r = c.u()
+            seen.append(f"<result {r}>")
+    finally:
+        client_t.close()
+        th.join(timeout=5)
+    want = ["log0", "log1", "log2", "<result 7>"]
+    return ReplayResult(seen != want, f"observed {seen}")
+
+
+@unit("C08.O6a _serve_unary flushes the log sink before the method and writes the result after it", targets=["vgi_rpc/rpc/_server.py::RpcServer._serve_unary"], replay=replay_unary_order, min_obligations=10, max_paths=20000)
+def unary_order_socket(S):
+    from lib_dispatch import run_serve_unary
+
+    c = run_serve_unary(S, writes_may_fail=False)
+    names = [e[0] for e in S.trace]
+    if "impl_invoked" in names:
+        S.oblige("O6a.sink_flushed_before_the_method_runs_and_result_written_after", _order_ok(names, "sink_flush", "impl_invoked", ("result_batch", "error_batch")), kind="trace", witness=",".join(n for n in names if n in ("sink_flush", "impl_invoked", "result_batch", "error_batch")))
+        S.canary("O6a.canary.method_never_runs_after_a_flush", SBool(z3.BoolVal("sink_flush" not in names)))
+
+
+@unit("C08.O6b _run_unary_sync flushes the log sink before the method and writes the result after it", targets=["vgi_rpc/http/server/_app_unary.py::_run_unary_sync"], replay=replay_unary_order, min_obligations=10, max_paths=40000)
+def unary_order_http(S):
+    import lib_httpdispatch
+
+    lib_httpdispatch.drive_unary(S, judge=False)
+    names = [e[0] for e in S.trace]
+    if "impl_invoked" in names:
+        S.oblige("O6b.sink_flushed_before_the_method_runs_and_result_written_after", _order_ok(names, "sink_flush", "impl_invoked", ("write_result", "error_batch")), kind="trace", witness=",".join(n for n in names if n in ("sink_flush", "impl_invoked", "write_result", "error_batch")))
+        S.canary("O6b.canary.method_never_runs_after_a_flush", SBool(z3.BoolVal("sink_flush" not in names)))
